@@ -21,4 +21,6 @@ InferViol(vals, k, ty, err) ==
   ELSE   (IF Sound(vals, ty) THEN {} ELSE {"Sound"})
     \cup (IF Tight(vals, ty) THEN {} ELSE {"Tight"})
     \cup (IF TDBound(ty, k)  THEN {} ELSE {"TDBound"})
+    \* C06: only dicts whose keys are all strings become TypedDicts (and an empty dict never does)
+    \cup (IF AllTDs(ty) # {} /\ ~(\E v \in vals : HoldsRecord(v)) THEN {"TDOnlyFromRecords"} ELSE {})
 =============================================================================
